@@ -20,6 +20,7 @@ import (
 	"math/rand"
 	"net/http"
 	"net/http/httptest"
+	"runtime"
 	"strconv"
 	"strings"
 	"sync"
@@ -54,6 +55,7 @@ func runC19(r *Run) {
 	}
 	if want("ws") {
 		c19Ws(r)
+		c19WsPartialThenHealthy(r)
 	}
 	if want("http") {
 		c19Http(r)
@@ -1812,3 +1814,62 @@ func c19CleanOnce(r *Run, rng *rand.Rand, placement string, withReader bool) {
 }
 
 var _ sync.Mutex
+
+// c19WsPartialThenHealthy: a Read fails in the middle of a fragmented message (the peer sent one
+// non-final frame and stalled; the reader's context expires); afterwards a Read on ANOTHER, healthy
+// connection must still return exactly what its peer wrote — nothing of the abandoned message may
+// leak into it.
+func c19WsPartialThenHealthy(r *Run) {
+	// state a transport keeps between reads (a pooled buffer, say) is most likely to be handed from the
+	// abandoned Read to the next one when both run on one OS thread, in one goroutine
+	defer runtime.GOMAXPROCS(runtime.GOMAXPROCS(1))
+	rounds := r.Scale(8, 60)
+	for i := 0; i < rounds; i++ {
+		bad, err := c19NewWsPair()
+		if err != nil {
+			r.Violate("ws.setup", "ops", "cannot set up a websocket pair: "+err.Error(), nil, nil, nil)
+			return
+		}
+		good, err := c19NewWsPair()
+		if err != nil {
+			bad.Close()
+			r.Violate("ws.setup", "ops", "cannot set up a websocket pair: "+err.Error(), nil, nil, nil)
+			return
+		}
+		// the stalled peer: the beginning of a valid envelope (with repeated fields), never finished
+		stale := &Rpc{Id: 77, Header: &goatorepo.RequestHeader{Method: "/stale/m", ProxyRecord: []string{"stale-hop"}}, Trailer: &goatorepo.Trailer{Metadata: []*goatorepo.KeyValue{{Key: "stale", Value: "trailer"}}}}
+		sb, _ := proto.Marshal(stale)
+		wctx, wcancel := context.WithTimeout(context.Background(), hangTimeout)
+		w, werr := bad.srv.Writer(wctx, websocket.MessageBinary)
+		if werr == nil {
+			// non-final frames; the writer is never closed. The library only flushes a final frame, so
+			// enough padding follows to push the beginning of the message through its write buffer.
+			w.Write(sb)
+			w.Write(make([]byte, 64<<10))
+		}
+		rctx, rcancel := context.WithTimeout(context.Background(), 150*time.Millisecond)
+		_, rerr := goat.NewGoatOverWebsocket(bad.cli).Read(rctx)
+		rcancel()
+		wcancel()
+		in := map[string]any{"round": i}
+		r.Progress("ws.partial", in)
+		if rerr == nil {
+			r.Violate("ws.partial.delivered", "ops", "a Read returned an envelope although its message was never completed", in, nil, "an error")
+		}
+		want := &Rpc{Id: uint64(1000 + i), Header: &goatorepo.RequestHeader{Method: "/verif.Echo/Unary", Source: "a", Destination: "b"}, Body: &goatorepo.Body{Data: []byte{1, 2, 3}}}
+		hctx, hcancel := context.WithTimeout(context.Background(), hangTimeout)
+		go goat.NewGoatOverWebsocket(good.srv).Write(hctx, want)
+		got, gerr := goat.NewGoatOverWebsocket(good.cli).Read(hctx)
+		hcancel()
+		ok := true
+		r.Eval(fmt.Sprintf("ws.partial/%d", i), true)
+		r.Count("ws.partial")
+		if !ok || gerr != nil {
+			r.Violate("ws.partial.read", "ops", "Read on a healthy connection failed after another connection's Read was abandoned", in, fmt.Sprint(gerr), nil)
+		} else if !proto.Equal(got, want) {
+			r.Violate("ws.partial.changed", "ops", "the envelope read differs from the one written (after another connection's Read was abandoned in mid-message)", in, c19Brief(got), c19Brief(want))
+		}
+		bad.Close()
+		good.Close()
+	}
+}
